@@ -368,6 +368,11 @@ def gen_scenario(rng, size):
                 steps.append(st)
         elif r < 0.46:
             steps.append(dict(op='pack', back=rng.choice([0, 0, 1, 2, 5]), gc=rng.random() < 0.4))
+            if nb and rng.random() < 0.3:
+                # the packed file grows back to exactly the size the last backup recorded
+                steps.append(dict(op='regrow'))
+                steps.append(dict(op='backup', flags=rng.choice(['Q', 'Q', 'Qz', '-']), dt=rng.choice([1, 2])))
+                nb += 1
         elif r < 0.55:
             recs = [[rng.choice([1, 2, 5]), rng.choice([1, 40, 300])]]
             steps.append(dict(op='begin', recs=recs if rng.random() < 0.85 else []))
@@ -844,6 +849,39 @@ class Run:
             with open(os.path.join(self.repo, n), 'rb') as f:
                 out[n] = f.read()
         return out
+
+    def do_regrow(self, st):
+        """directed: after a pack made the file shorter than the end recorded in the last .dat line,
+        empty transactions whose description length is tuned bring it back to EXACTLY that size, so a
+        following -B -Q sees srcsz == endpos over a changed prefix"""
+        from ZODB.Connection import TransactionMetaData
+        from ZODB.TimeStamp import TimeStamp
+        ch = self.chain()
+        if self.txn is not None or not ch or self.outside:
+            return
+        try:
+            with open(os.path.join(self.repo, os.path.splitext(ch[0].fname)[0] + '.dat')) as f:
+                end = int(f.readlines()[-1].rsplit(None, 3)[2])
+        except (OSError, IndexError, ValueError):
+            return
+        gap = end - self.fs.getSize()
+        if gap < 31:
+            return
+        while gap > 0:
+            # an empty transaction takes 23 (header) + description + 8 (redundant length) bytes
+            d = min(gap - 31, 60000)
+            if 0 < gap - 31 - d < 31:
+                d -= 31
+            self.ntid += 1
+            tid = TimeStamp(2020, 1, 1, 0, self.ntid // 60, self.ntid % 60).raw()
+            t = TransactionMetaData('', 'd' * d)
+            self.fs.tpc_begin(t, tid=tid)
+            self.fs.tpc_vote(t)
+            self.fs.tpc_finish(t)
+            self.tids.append(tid)
+            gap = end - self.fs.getSize()
+        self.count('op:regrown-to-exactly-the-recorded-end' if gap == 0 else 'op:regrow-missed')
+        self.sync_source()
 
     def do_collide(self, st):
         """a commit, then a second backup of the SAME kind in the same second as the last one: repozo
